@@ -361,6 +361,8 @@ pub fn templates(seed: u64, n_random_each: usize, steps: usize, key_table_1100: 
         // T9c: the same with more origins than a four-digit bound (first variant only: it is the slow one)
         if _variant == 0 && key_table_1100 {
             let mut c = cfgs(&mut rng);
+            c.max_idle_per_host = 1;
+            c.idle_timeout_ms = None;
             let n_or = 1100usize;
             c.origins = (0..n_or).map(|i| origin(&format!("http://h{i}.test"))).collect();
             // origin 0: one idle connection; then every other origin is seen once (its dial fails); then origin 0 and the
@@ -803,7 +805,7 @@ pub fn run(args: &Args) -> Report {
         return rep;
     }
     let thorough = args.tier_thorough;
-    let mut scs = templates(args.seed, if thorough { 120 } else { 12 }, 25, args.wants("C06"));
+    let mut scs = templates(args.seed, if thorough { 120 } else { 12 }, 25, args.wants("C06") || args.wants("C15"));
     scs.extend(random_walks(args.seed, if thorough { 400_000 } else { 30_000 }));
     let n = scs.len() as u64;
     let scs_ref = &scs;
